@@ -463,7 +463,13 @@ class Evaluator:
                 parts.append(self._cmp(left, op, right))
                 left = right
             return parts[0] if len(parts) == 1 else "and(" + ",".join(sorted(parts)) + ")"
-        return "truthy(" + self.ev(node).key() + ")"
+        t = self.ev(node)
+        k = t.key()
+        if len(t.p) == 1 and list(t.p.values())[0] == 1 and len(list(t.p)[0]) == 1 and k.startswith(("mod(", "len(")):
+            # truthiness of a remainder / a length is `!= 0` resp. `> 0`; rendered like the comparison so both spellings agree
+            d = t
+            return f"{d.key()} != 0" if k.startswith("mod(") else f"{d.key()} > 0"
+        return "truthy(" + k + ")"
 
     def _cmp(self, l, op, r):
         a, b = self.ev(l), self.ev(r)
